@@ -74,6 +74,28 @@ def decorate(rng, m):
                     f["dirs"] = [rng.choice(["deprecated", 'deprecated(reason: "")', 'deprecated(reason: null)'])]
     if rng.random() < 0.5:
         m["exts"].insert(rng.randrange(len(m["exts"]) + 1), {"schema_ops": {}, "dirs": ["tsd2"]})
+    # default values of every kind, strings that need escaping included (an input type nobody refers to)
+    if not any(t["name"] == "ZDefaults" for t in m["types"]):
+        ens = [t for t in m["types"] if t["kind"] == "ENUM" and t["values"]]
+        fields = [
+            {"name": "s1", "type": N("String"), "default": ("str", 'say "hi" \\ bye')},
+            {"name": "s2", "type": N("String"), "default": ("str", "line\nbreak\ttab")},
+            {"name": "s3", "type": N("String"), "default": ("str", "\u00e9t\u00e9 \u00fc")},
+            {"name": "s4", "type": N("String"), "default": ("str", "")},
+            {"name": "i1", "type": N("Int"), "default": ("int", -5)},
+            {"name": "f1", "type": N("Float"), "default": ("float", 1e+20)},
+            {"name": "f2", "type": N("Float"), "default": ("float", 1.5e-07)},
+            {"name": "b1", "type": N("Boolean"), "default": ("bool", False)},
+            {"name": "n1", "type": N("Int"), "default": ("null",)},
+            {"name": "id1", "type": N("ID"), "default": ("int", 4)},
+            {"name": "l1", "type": L(N("String")), "default": ("list", [("str", 'a"b'), ("null",), ("str", "c")])},
+            {"name": "o1", "type": N("ZDefaults"), "default": ("obj", [("s1", ("str", 'in "side"')), ("l1", ("list", []))])},
+            {"name": "plain", "type": N("Int"), "default": None}]
+        if ens:
+            fields.append({"name": "e1", "type": L(NN(N(ens[0]["name"]))), "default": ("list", [("enum", ens[0]["values"][0])])})
+        for f in fields:
+            f["dirs"] = []
+        m["types"].append({"name": "ZDefaults", "kind": "INPUT", "dirs": [], "fields": fields})
     # an object declared textually before the interface it implements
     objs = [t for t in m["types"] if t["kind"] == "OBJECT" and t.get("interfaces")]
     if objs and rng.random() < 0.7:
@@ -156,9 +178,46 @@ def tref_coq(t):
     return "(RNamed %s %s)" % (coq_string(t["kind"]), coq_string(t["name"]))
 
 
+def value_tuple(v):
+    """AST value node (parser stand-in) -> literal tuple of harness/gen.py, numbers cast as the SDL parser does"""
+    k = v["kind"]
+    if k == "IntValue":
+        return ("int", int(v["value"]))
+    if k == "FloatValue":
+        return ("float", float(v["value"]))
+    if k == "StringValue":
+        return ("str", v["value"])
+    if k == "BooleanValue":
+        return ("bool", bool(v["value"]))
+    if k == "NullValue":
+        return ("null",)
+    if k == "EnumValue":
+        return ("enum", v["value"])
+    if k == "ListValue":
+        return ("list", [value_tuple(i) for i in v["values"]])
+    if k == "ObjectValue":
+        return ("obj", [(f["name"]["value"], value_tuple(f["value"])) for f in v["fields"]])
+    raise ValueError(k)
+
+
+def default_coq(text):
+    """what `defaultValue` reports, read back as a GraphQL value"""
+    if text is None:
+        return "None"
+    try:
+        ast = gen.parse_query("{ f(x: %s) }" % text)
+        node = ast["definitions"][0]["selectionSet"]["selections"][0]["arguments"][0]["value"]
+        if len(ast["definitions"]) != 1 or len(ast["definitions"][0]["selectionSet"]["selections"]) != 1 or \
+                len(ast["definitions"][0]["selectionSet"]["selections"][0]["arguments"]) != 1:
+            raise ValueError("not one value")
+        return "(Some %s)" % gen.lit_coq_sdl(value_tuple(node))
+    except Exception:     # pylint: disable=broad-except
+        return "(Some (LVar (0, 0)%%Z %s))" % coq_string("not a GraphQL value: " + str(text)[:80])
+
+
 def iarg_coq(a):
-    return "{| ia_name := %s; ia_type := %s; ia_has_default := %s |}" % (
-        coq_string(a["name"]), tref_coq(a["type"]), coq_bool(a.get("defaultValue") is not None))
+    return "{| ia_name := %s; ia_type := %s; ia_default := %s |}" % (
+        coq_string(a["name"]), tref_coq(a["type"]), default_coq(a.get("defaultValue")))
 
 
 def itype_coq(t):
@@ -358,6 +417,6 @@ def main(tier_, replay=None):
         "traces_validated_against_impl": len(items), "impl_model_mismatches": len(mism), "property_violations": len(viol),
         "samples": [{"way": w, "types": len(sc["types"])} for _m, w, sc in items[:4]],
     }, rep.wall(), violations=len(rep.violations),
-        assumptions_=["lark grammar and AST transformers, file reading and globbing are exercised, not modelled; default VALUES "
-                      "are compared for presence (their text is the str() of the AST node)"])
+        assumptions_=["lark grammar and AST transformers, file reading and globbing are exercised, not modelled; the reported "
+                      "defaultValue text is parsed back by the parser stand-in and compared as a value with the declared default"])
     return rep.finish()
